@@ -638,3 +638,101 @@ func (g *Gen) repeatDestProgram() *GProgram {
 	g.prog.Stmts = append(g.prog.Stmts, &GStmt{Kind: StSend, Sent: &GSent{E: lit(asset, n)}, Src: src, Dst: dst})
 	return g.prog
 }
+
+// capVarReuse: ONE monetary variable is the cap of several `max $cap from ...` sources - in the
+// branches of an allotment (each branch asks the cap for its own part), in an ordered list, and in a
+// later statement. A cap that was larger than what one place needed must still be whole in the next.
+func (g *Gen) capVarReuseProgram(single bool) *GProgram {
+	asset := "USD"
+	g.asset = asset
+	g.smallBalances([]string{"a", "b", "c"}, asset, 60)
+	n := int64(4 + g.r.Intn(60))
+	capv := bi(int64(g.r.Intn(int(n) + 10)))
+	g.prog.Vars = append(g.prog.Vars, &GVarDecl{Type: "monetary", Name: "cap"})
+	g.rawVars["cap"] = asset + " " + capv.String()
+	use := func() *GExpr { return &GExpr{Kind: XVar, S: "cap"} }
+	capped := func(a string) *GSource {
+		from := srcAcct(a)
+		if g.r.Chance(1, 4) {
+			from = &GSource{Kind: SrcInorder, Subs: []*GSource{srcAcct(a), srcAcct("world")}}
+		}
+		return &GSource{Kind: SrcCapped, Cap: use(), From: from}
+	}
+	var src *GSource
+	if g.r.Chance(2, 3) {
+		saved := g.cfg.BadAllot
+		g.cfg.BadAllot = 0
+		k := 2 + g.r.Intn(2)
+		src = &GSource{Kind: SrcAllot}
+		names := []string{"a", "b", "c"}
+		for i, al := range g.allots(k) {
+			src.Items = append(src.Items, &GSrcItem{Allot: al, From: capped(names[i%3])})
+		}
+		g.cfg.BadAllot = saved
+	} else {
+		src = &GSource{Kind: SrcInorder, Subs: []*GSource{capped("a"), capped("b")}}
+		if g.r.Chance(1, 2) {
+			src.Subs = append(src.Subs, srcAcct("world"))
+		}
+	}
+	dst := dstAcct("d")
+	if !single && g.r.Chance(1, 2) {
+		// an earlier statement that needs less than the cap
+		g.prog.Stmts = append(g.prog.Stmts, &GStmt{Kind: StSend, Sent: &GSent{E: lit(asset, bi(int64(g.r.Intn(int(n)/2+1))))},
+			Src: &GSource{Kind: SrcInorder, Subs: []*GSource{capped("c"), srcAcct("world")}}, Dst: dstAcct("e")})
+	}
+	g.prog.Stmts = append(g.prog.Stmts, &GStmt{Kind: StSend, Sent: &GSent{E: lit(asset, bi(n))}, Src: src, Dst: dst})
+	if !single && g.r.Chance(1, 2) {
+		g.prog.Stmts = append(g.prog.Stmts, &GStmt{Kind: StSend, Sent: &GSent{E: use()}, Src: srcAcct("world"), Dst: dstAcct("f")})
+	}
+	return g.prog
+}
+
+// originOtherAsset: a variable origin reads ONE asset of an account (balance / overdraft), then a
+// send draws ANOTHER asset from the same account: what is known about one asset of an account says
+// nothing about its other assets.
+func (g *Gen) originOtherAssetProgram(single bool) *GProgram {
+	x, y := "USD", "EUR"
+	if g.r.Chance(1, 2) {
+		x, y = y, x
+	}
+	g.asset = y
+	g.bal["a"] = map[string]*big.Int{x: bi(int64(g.r.Intn(30))), y: bi(int64(5 + g.r.Intn(40)))}
+	g.bal["b"] = map[string]*big.Int{x: bi(int64(g.r.Intn(10))), y: bi(int64(g.r.Intn(40)))}
+	if g.r.Chance(1, 4) {
+		delete(g.bal["a"], x)
+	}
+	fn := "balance"
+	if g.r.Chance(1, 4) {
+		fn = "overdraft"
+		g.flag = true
+	}
+	g.prog.Vars = append(g.prog.Vars, &GVarDecl{Type: "monetary", Name: "seen",
+		Origin: &GFnCall{Name: fn, Args: []*GExpr{acct("a"), {Kind: XAsset, S: x}}}})
+	var src *GSource
+	switch g.r.Intn(3) {
+	case 0:
+		src = srcAcct("a")
+	case 1:
+		src = &GSource{Kind: SrcInorder, Subs: []*GSource{srcAcct("a"), srcAcct("b")}}
+	default:
+		src = &GSource{Kind: SrcInorder, Subs: []*GSource{srcAcct("b"), srcAcct("a")}}
+	}
+	sent := &GSent{E: lit(y, bi(int64(1+g.r.Intn(40))))}
+	if g.r.Chance(1, 3) {
+		sent = &GSent{All: true, E: &GExpr{Kind: XAsset, S: y}}
+	}
+	// the asset already read is needed again by the statements (a save, or a send of its own), so
+	// that one request names a known and an unknown asset of the same account
+	if g.r.Chance(3, 4) {
+		g.prog.Stmts = append(g.prog.Stmts, &GStmt{Kind: StSave, Sent: &GSent{E: lit(x, bi(int64(g.r.Intn(8))))}, Acct: acct("a")})
+	}
+	if !single && g.r.Chance(1, 2) {
+		g.prog.Stmts = append(g.prog.Stmts, &GStmt{Kind: StSend, Sent: &GSent{E: lit(x, bi(int64(g.r.Intn(12))))}, Src: &GSource{Kind: SrcInorder, Subs: []*GSource{srcAcct("a"), srcAcct("world")}}, Dst: dstAcct("d")})
+	}
+	g.prog.Stmts = append(g.prog.Stmts, &GStmt{Kind: StSend, Sent: sent, Src: src, Dst: dstAcct("c")})
+	if !single {
+		g.prog.Stmts = append(g.prog.Stmts, &GStmt{Kind: StCall, Call: &GFnCall{Name: "set_tx_meta", Args: []*GExpr{{Kind: XString, S: "seen"}, {Kind: XVar, S: "seen"}}}})
+	}
+	return g.prog
+}
